@@ -317,8 +317,60 @@ def r4_closed_callees(ctx):
               % [c for c in callers if c not in (REL, "quiver_core::types::is_compatible", "quiver_core::types::types_overlap")])
 
 
+def r5_unions_and_check_elision(ctx):
+    R = "R-C09-5"
+    ctx.rule(R, "(a) union construction is structural: typing::union_type_ids (and whatever it was split into) flattens and drops exact duplicates only — "
+                "it never consults the type relation (is_compatible / types_overlap answer optimistically for a dangling Cycle, so 'covered' variants "
+                "pruned by them can be recursive ones); (b) a runtime type check is elided only under a static compatibility judgment: in "
+                "pattern::type_check_requirements every way through one member that does not push RuntimeCheck::TypeId passes an is_compatible call "
+                "whose answer was true")
+    F = ctx.facts
+    U = "quiver_compiler::compiler::typing::union_type_ids"
+    reach = F.reach([U]) | set(F.transparent_callees(U))
+    rel = sorted(k for k in reach if k.split("::")[-1] in ("is_compatible", "types_overlap", "check_type_relation", "intersect_types", "subtract_types"))
+    ub = F.body(U)
+    direct = sorted({(t.get("callee") or "").split("::")[-1] for _b, t in ub.calls() if (t.get("callee") or "").split("::")[-1] in
+                     ("is_compatible", "types_overlap", "check_type_relation", "intersect_types")})
+    ctx.check(not rel and not direct, R, U + "|structural", "union_type_ids reaches only register_type / never (flatten + exact-duplicate removal)",
+              "union construction now consults the type relation (%s): variants judged 'covered' are dropped, but the relation answers optimistically for a "
+              "dangling Cycle, so a recursive variant can be lost and values of the union rejected" % (rel or direct), ub.loc(0))
+    tb = F.body("quiver_compiler::compiler::pattern::type_check_requirements")
+    fl = Flow(tb, through_named=True)
+    pushes = []
+    for bi, t in tb.calls():
+        if (t.get("callee") or "").endswith("Vec::push") and len(t["args"]) > 1 and op_place(t["args"][1]):
+            if "pattern::Requirement" in (tb.local_ty(op_place(t["args"][1])["l"]) or ""):
+                pushes.append(bi)
+    if not pushes:
+        raise CheckError("%s: the Requirement push of type_check_requirements was not found" % R)
+    nexts = [bi for bi, t in tb.calls() if (t.get("callee") or "").endswith("Iterator::next") and any(tb.reaches(p_, bi) and tb.reaches(bi, p_) for p_ in pushes)]
+    if not nexts:
+        raise CheckError("%s: the member loop of type_check_requirements was not found" % R)
+    hb = nexts[0]
+    for n2 in nexts:
+        if tb.dominates(hb, n2) and n2 != hb:
+            hb = n2 if all(tb.dominates(n2, p_) for p_ in pushes) else hb
+    compat = [(bi, t) for bi, t in tb.calls() if (t.get("callee") or "").split("::")[-1] == "is_compatible"]
+    force = {}
+    for bi, t in compat:
+        force[t["dest"]["l"]] = 0
+    from qvlib.paths import discr_switches, err_blocks, diverging_blocks
+    some_edges = []
+    for swb, mp, other in discr_switches(tb, tb.blocks[hb]["term"]["dest"]["l"]):
+        some_edges.append(mp.get(1, other))
+    bad = None
+    for e_ in some_edges:
+        # with every compatibility judgment answering "no", can an iteration still skip the check?
+        start = (e_, dict((l, 0) for l in force))
+        bad = bad or explore(tb, [start], avoid=pushes, stop=err_blocks(tb) | diverging_blocks(tb), want="target", targets=[hb], force=force)
+    ctx.check(bool(compat) and bool(some_edges) and bad is None, R, tb.key + "|elision-needs-compatibility",
+              "a member's runtime check is skipped only when is_compatible(value type, member) held (%d judgment(s))" % len(compat),
+              "a type assertion's runtime check can be skipped without the value type being compatible with the asserted type (an unchanged intersection "
+              "only means the types OVERLAP): a value outside the asserted type takes the branch", tb.loc(pushes[0]))
+
+
 def run(ctx):
-    ctx.run_rules([r1_polarity, r2_matrix, r3_narrowing_direction, r4_closed_callees])
+    ctx.run_rules([r1_polarity, r2_matrix, r3_narrowing_direction, r4_closed_callees, r5_unions_and_check_elision])
     ctx.note("NOT decided: soundness/transitivity of the coinductive relation over all type graphs; completeness of overlap inside structural arms "
              "(e.g. partial-vs-partial patterns are limited by the compiler's static field indexing, observation F14 in DESIGN.md)")
     return (
